@@ -78,7 +78,8 @@ func c02Pairs(r *rand.Rand, size int64, nRandom int, full bool) [][2]int64 {
 	offs := []int64{0, 1, size - 1, size, size + 1, 2047, 2048, 2049, 65535, 65536, 65537, size / 2, size - 2048, size - 65536}
 	lims := []int64{0, 1, 2, 2047, 2048, 2049, 65535, 65536, 65537, size, size + 1, 1 << 20}
 	if size > 1<<32 {
-		offs = append(offs, 1<<32-1, 1<<32, 1<<32+1, 1<<32-70000, size-3)
+		offs = append(offs, 1<<32-1, 1<<32, 1<<32+1, 1<<32-70000, size-3,
+			size-1<<32, size-1<<32-1, size-1<<32-1000, size-1<<32+1, size-1<<32-70000) // exactly / a little more than 4 GiB left
 	}
 	var out [][2]int64
 	for _, o := range offs {
